@@ -661,6 +661,9 @@ def run(ck, prog):
     rule_r1(ck, prog)
     rule_r2(ck, prog)
     rule_r3(ck, prog)
+    # LOCK: every method of the last-value aggregations touches the point only under the aggregation's lock
+    c06.rule_r1_fields(ck, prog, 'sdk::metrics::LongLastValueAggregation', ['point_data_'], rule='C17.R3')
+    c06.rule_r1_fields(ck, prog, 'sdk::metrics::DoubleLastValueAggregation', ['point_data_'], rule='C17.R3')
     rule_r4(ck, prog)
     rule_r4_tables(ck, prog)
     rule_r1_identity(ck, prog)
